@@ -13,6 +13,7 @@ import (
 var issueToFinding = map[string]string{
 	"mod-named-type":              "K19-multipleOf-named-number",
 	"duplicate-method":            "K21-composite-definition",
+	"redeclared-type":             "K21-composite-definition",
 	"default-literal":             "K4-default-literal",
 	"duplicate-enum-constant":     "K5-enum-constant-collision",
 	"addl-raw-undeclared":         "K24-addl-raw-undeclared",
